@@ -3,10 +3,10 @@ CONSTANTS
   CapMod = 65536
   ClearOnGrow = TRUE
   ResetVarsOnFree = TRUE
-  MaxCtx = 3
+  MaxCtx = 1
   MaxBi = 12
-  MaxVars = 2
-  Progs = {1, 2}
+  MaxVars = 1
+  Progs = {1}
   GrowSteps = 1
   Texts <- AllTexts
   Outcomes <- OutcomesMC
